@@ -118,4 +118,89 @@ theorem reflect_interval (pre : List Tbl) (t0 : Tbl) (sel' post : List Tbl) (mer
     have h2 : ¬ (pre.length ≤ i ∧ i < pre.length + (sel'.length + 1)) := by omega
     simp [h1, List.mem_range'_1, h2]
 
+theorem split_interval (ts : List Tbl) (a m : Nat) (h : a + m ≤ ts.length) :
+    ∃ pre mid post, ts = pre ++ mid ++ post ∧ pre.length = a ∧ mid.length = m := by
+  refine ⟨ts.take a, (ts.drop a).take m, ts.drop (a + m), ?_, ?_, ?_⟩
+  · rw [List.append_assoc, ← List.drop_drop, List.take_append_drop, List.take_append_drop]
+  · simp; omega
+  · simp; omega
+
+theorem reflect_interval' (pre : List Tbl) (t0 : Tbl) (sel' post : List Tbl) (merged : Tbl)
+    (ts : List Tbl) (idx : List Nat) (hts : ts = pre ++ (t0 :: sel') ++ post)
+    (hidx : idx = List.range' pre.length (sel'.length + 1)) :
+    ((List.range ts.length).zip ts).flatMap
+      (fun (x : Nat × Tbl) => match x with
+        | (i, t) => if i == pre.length then [merged] else if idx.contains i then [] else [t])
+    = pre ++ [merged] ++ post := by
+  subst hts hidx
+  exact reflect_interval pre t0 sel' post merged
+
+theorem compactStep_spec (s : State) (sizes : List Nat) :
+    (compactStep s sizes).1 = s ∨
+    ∃ pre t0 sel' post, s.tables = pre ++ (t0 :: sel') ++ post ∧
+      (compactStep s sizes).1 = { s with tables :=
+        pre ++ [{ gen := t0.gen, cells := mergeRun (t0 :: sel') (pre.length == 0) }] ++ post } := by
+  unfold compactStep
+  extract_lets flags idx sel
+  have hcont : Contiguous flags := floodFill_contiguous _
+  have hidx : idx = (List.range s.tables.length).filter (fun i => flags.getD i false) := rfl
+  have hsel : sel = idx.filterMap (fun i => s.tables[i]?) := rfl
+  clear_value sel idx flags
+  by_cases hth : (idx.length : Int) ≤ s.opts.threshold
+  · left; rw [if_pos hth]
+  · simp only [if_neg hth]
+    cases idx with
+    | nil => left; rfl
+    | cons first rest =>
+      have hpw : (first :: rest).Pairwise (· < ·) := by
+        rw [hidx]; exact List.Pairwise.sublist List.filter_sublist List.pairwise_lt_range
+      have hmem : ∀ x, x ∈ first :: rest ↔ x < s.tables.length ∧ flags.getD x false = true := by
+        intro x; rw [hidx, List.mem_filter, List.mem_range]
+      have hr := eq_range'_of_closed rest first hpw (by
+        intro x y z hx hz hxy hyz
+        rw [hmem] at hx hz ⊢
+        exact ⟨by omega, hcont x y z hxy hyz hx.2 hz.2⟩)
+      have hlast : first + rest.length < s.tables.length := by
+        have : first + rest.length ∈ first :: rest := by rw [hr, List.mem_range'_1]; omega
+        exact ((hmem _).1 this).1
+      obtain ⟨pre, mid, post, htab, hpl, hml⟩ := split_interval s.tables first (rest.length + 1) (by omega)
+      subst hpl
+      have hsel' : sel = mid := by
+        rw [hsel, hr, htab, ← hml]; exact filterMap_getElem?_mid pre mid post
+      subst hsel'
+      cases sel with
+      | nil => simp at hml
+      | cons t0 sel' =>
+        right
+        refine ⟨pre, t0, sel', post, htab, ?_⟩
+        have hrl : rest.length = sel'.length := by simpa using hml.symm
+        rw [hrl] at hr
+        exact congrArg (fun T => ({ s with tables := T } : State))
+          (reflect_interval' pre t0 sel' post _ s.tables (pre.length :: rest) htab hr)
+
+/-- one compaction cycle only replaces the table list, by one that reads the same everywhere and whose table
+numbers are a sub-sequence of the old ones -/
+theorem compactStep_tables (s : State) (sizes : List Nat) :
+    ∃ T, (compactStep s sizes).1 = { s with tables := T } ∧
+      (∀ k, vis (tablesGet T k) = vis (tablesGet s.tables k)) ∧
+      (GensOk s → GensOk { s with tables := T }) := by
+  rcases compactStep_spec s sizes with (h | ⟨pre, t0, sel', post, htab, h⟩)
+  · exact ⟨s.tables, by rw [h], fun _ => rfl, fun hg => hg⟩
+  · refine ⟨_, h, ?_, ?_⟩
+    · intro k
+      rw [htab]
+      exact vis_tablesGet_merge pre (t0 :: sel') post t0.gen (pre.length == 0)
+        (by intro hd; exact List.eq_nil_of_length_eq_zero (by simpa using hd)) k
+    · rintro ⟨hp, hm⟩
+      rw [htab] at hp hm
+      constructor
+      · refine List.Pairwise.sublist ?_ hp
+        simp
+      · intro t ht
+        simp only [List.mem_append, List.mem_cons, List.not_mem_nil, or_false] at ht
+        rcases ht with ((ht | ht) | ht)
+        · exact hm t (by simp [ht])
+        · subst ht; exact hm t0 (by simp)
+        · exact hm t (by simp [ht])
+
 end SST.Proofs.DB
